@@ -154,7 +154,7 @@ func LocationFunctions(ctx *Context, loc *Location, runtime *otto.Otto, env map[
 			id = ""
 		}
 
-		x, err := call.Argument(1).Export()
+		x, err := exportValue(call.Otto, call.Argument(1))
 		if err != nil {
 			throwJavascript(call.Otto.Call("new Error", nil, "No object (second arg) given"))
 		}
@@ -189,7 +189,7 @@ func LocationFunctions(ctx *Context, loc *Location, runtime *otto.Otto, env map[
 			id = ""
 		}
 
-		x, err := call.Argument(1).Export()
+		x, err := exportValue(call.Otto, call.Argument(1))
 		if err != nil {
 			throwJavascript(call.Otto.Call("new Error", nil, "No object (second arg) given"))
 		}
@@ -215,7 +215,7 @@ func LocationFunctions(ctx *Context, loc *Location, runtime *otto.Otto, env map[
 	env["ProcessEvent"] = func(call otto.FunctionCall) otto.Value {
 		// id, object
 		Log(DEBUG, ctx, "Javascript.ProcessEvent")
-		x, err := call.Argument(0).Export()
+		x, err := exportValue(call.Otto, call.Argument(0))
 		if err != nil {
 			throwJavascript(call.Otto.Call("new Error", nil, "No object (first arg) given"))
 		}
@@ -241,7 +241,7 @@ func LocationFunctions(ctx *Context, loc *Location, runtime *otto.Otto, env map[
 	env["Search"] = func(call otto.FunctionCall) otto.Value {
 		// object
 		Log(DEBUG, ctx, "Javascript.Search")
-		x, err := call.Argument(0).Export()
+		x, err := exportValue(call.Otto, call.Argument(0))
 		if err != nil {
 			throwJavascript(call.Otto.Call("new Error", nil, "No object (first arg) given"))
 		}
@@ -268,7 +268,7 @@ func LocationFunctions(ctx *Context, loc *Location, runtime *otto.Otto, env map[
 	env["Query"] = func(call otto.FunctionCall) otto.Value {
 		// object
 		Log(DEBUG, ctx, "Javascript.Query")
-		m, err := call.Argument(0).Export()
+		m, err := exportValue(call.Otto, call.Argument(0))
 		if err != nil {
 			throwJavascript(call.Otto.Call("new Error", nil, "No object (first arg) given"))
 		}
@@ -401,7 +401,7 @@ func jsFun_httpx(ctx *Context, runtime *otto.Otto, env map[string]interface{}) f
 		timer := NewTimer(ctx, "jsFun_httpx")
 		defer timer.Stop()
 
-		spec, err := call.Argument(0).Export()
+		spec, err := exportValue(call.Otto, call.Argument(0))
 		if err != nil {
 			throwJavascript(call.Otto.Call("new Error", nil, err.Error()))
 		}
@@ -520,6 +520,62 @@ var JavascriptTestValue interface{}
 //
 // What cannot be rendered (NaN, say) is returned as it is, and the
 // operation that gets it will complain.
+// containsItself is a Javascript function that says whether a value
+// contains itself (var a = {}; a.self = a).
+const containsItself = `(function (v) {
+	var seen = [];
+	function walk(x) {
+		if (x === null || typeof x !== 'object') {
+			return false;
+		}
+		for (var i = 0; i < seen.length; i++) {
+			if (seen[i] === x) {
+				return true;
+			}
+		}
+		seen.push(x);
+		for (var k in x) {
+			if (walk(x[k])) {
+				return true;
+			}
+		}
+		seen.pop();
+		return false;
+	}
+	return walk(v);
+})`
+
+// exportValue is Value.Export for what a script hands over (its result,
+// an argument of one of our functions).  Export follows a value that
+// contains itself until the Go stack overflows, which is fatal for the
+// whole process, so such a value is refused.
+func exportValue(runtime *otto.Otto, v otto.Value) (interface{}, error) {
+	if v.IsObject() && valueContainsItself(runtime, v) {
+		return nil, errors.New("a value that contains itself can't be used here")
+	}
+	return v.Export()
+}
+
+func valueContainsItself(runtime *otto.Otto, v otto.Value) (cyclic bool) {
+	defer func() {
+		// Walking a value that wraps a Go value (the result of
+		// Env.exec, say) can panic in the interpreter.  Such
+		// values aren't built by scripts; let Export have them.
+		if caught := recover(); caught != nil {
+			if caught == Halt {
+				panic(caught)
+			}
+			cyclic = false
+		}
+	}()
+	answer, err := runtime.Call(containsItself, nil, v)
+	if err != nil {
+		return false
+	}
+	cyclic, _ = answer.ToBoolean()
+	return cyclic
+}
+
 // JavascriptStackDepthLimit is the deepest nesting of function calls
 // that a script gets.
 var JavascriptStackDepthLimit = 2000
@@ -600,7 +656,7 @@ func RunJavascript(ctx *Context, bs *Bindings, props map[string]interface{}, src
 		env["exec"] = func(call otto.FunctionCall) otto.Value {
 			// First arg is a object that specifies a CommandSpec.
 			Log(DEBUG, ctx, "core.RunJavascript", "f", "exec", "call", call)
-			x, err := call.Argument(0).Export()
+			x, err := exportValue(call.Otto, call.Argument(0))
 			if err != nil {
 				Log(WARN, ctx, "core.RunJavascript", "f", "exec", "call", call, "error", err)
 				throwJavascript(call.Otto.Call("new Error", nil, err.Error()))
@@ -632,7 +688,7 @@ func RunJavascript(ctx *Context, bs *Bindings, props map[string]interface{}, src
 				throwJavascript(call.Otto.Call("new Error", nil, err.Error()))
 			}
 			cs := CommandSpec{}
-			opts, err := call.Argument(1).Export()
+			opts, err := exportValue(call.Otto, call.Argument(1))
 			if err != nil {
 				Log(WARN, ctx, "core.RunJavascript", "f", "exec", "call", call, "error", err)
 				throwJavascript(call.Otto.Call("new Error", nil, err.Error()))
@@ -707,7 +763,7 @@ func RunJavascript(ctx *Context, bs *Bindings, props map[string]interface{}, src
 	env["log"] = func(call otto.FunctionCall) otto.Value {
 		Log(DEBUG, ctx, "core.RunJavascript", "f", "log")
 		o := call.Argument(0)
-		x, err := o.Export()
+		x, err := exportValue(call.Otto, o)
 		if err == nil {
 			m, ok := x.(map[string]interface{})
 			if ok {
@@ -761,7 +817,7 @@ func RunJavascript(ctx *Context, bs *Bindings, props map[string]interface{}, src
 		if nil != v {
 			switch vv := v.(type) {
 			case chan interface{}:
-				x, err := call.Argument(0).Export()
+				x, err := exportValue(call.Otto, call.Argument(0))
 				if err != nil {
 					Log(WARN, ctx, "core.RunJavascript", "f", "out", "err", err)
 				} else {
@@ -784,7 +840,7 @@ func RunJavascript(ctx *Context, bs *Bindings, props map[string]interface{}, src
 	// 	if err != nil {
 	// 		throwJavascript(call.Otto.Call("new Error", nil, err.Error()))
 	// 	}
-	// 	val, err := call.Argument(1).Export()
+	// 	val, err := exportValue(call.Otto, call.Argument(1))
 	// 	if err != nil {
 	// 		throwJavascript(call.Otto.Call("new Error", nil, err.Error()))
 	// 	}
@@ -811,13 +867,13 @@ func RunJavascript(ctx *Context, bs *Bindings, props map[string]interface{}, src
 
 	env["match"] = func(call otto.FunctionCall) otto.Value {
 		Log(DEBUG, ctx, "core.RunJavascript", "f", "match", "call", call)
-		pat, err := call.Argument(0).Export()
+		pat, err := exportValue(call.Otto, call.Argument(0))
 		if err != nil {
 			Log(WARN, ctx, "core.RunJavascript", "f", "0.Export", "warning", err)
 			throwJavascript(call.Otto.Call("new Error", nil, err.Error()))
 		}
 		Log(DEBUG, ctx, "core.RunJavascript", "f", "match", "pat", pat, "type", fmt.Sprintf("%T", pat))
-		fact, err := call.Argument(1).Export()
+		fact, err := exportValue(call.Otto, call.Argument(1))
 		if err != nil {
 			Log(WARN, ctx, "core.RunJavascript", "f", "1.Export", "warning", err)
 			throwJavascript(call.Otto.Call("new Error", nil, err.Error()))
@@ -1004,7 +1060,7 @@ func RunJavascript(ctx *Context, bs *Bindings, props map[string]interface{}, src
 		Log(ERROR, ctx, "core.RunJavascript", "error", err.Error(), "when", "runtime.Run")
 		return nil, err
 	}
-	x, err := v.Export()
+	x, err := exportValue(runtime, v)
 	if err != nil {
 		Log(ERROR, ctx, "core.RunJavascript", "error", err.Error(), "when", "v.Export")
 		return nil, err
